@@ -440,10 +440,15 @@ PLAIN_NAMED = re.compile(r"^(?:method:|static-method:)?(?:ret|param|var|member|t
                          r"[\w-]+/([\w-]+)$")
 
 
-LOOKUP_VIA = re.compile(r"/(unq-usingdecl|unq-usingdir|unq-base|unq-injected-base|relqual|via-derived|nsalias)\b")
+LOOKUP_VIA = re.compile(r"/(unq-usingdecl|unq-usingdir|unq-base|unq-mbase-first|unq-mbase-middle|unq-mbase-last|"
+                        r"unq-injected-base|relqual|via-derived|nsalias)\b")
 
 
 def cause_of(cat, sig, printed="", text=""):
+    if "array[tparam](" in sig and re.search(r"\[K\b", printed):
+        return "template-parameter-array-bound-not-substituted"
+    # the known cause classes do not depend on whether an array bound is a literal or a template parameter
+    sig = sig.replace("array[tparam](", "array(")
     m = PLAIN_NAMED.match(sig)
     if cat == "rejected-valid" and printed.startswith("died:"):
         return "tool-aborts-on-valid-input," + re.sub(r"[^\w:(),@=<>!&|.*+-]", "_", printed[5:])[:120]
